@@ -307,11 +307,14 @@ func (s *TxStore) insertMinedTxForImporting(tx mwdb.DBTransaction,
 			return ErrChainReorg
 		}
 		if !exists {
-			blockValue, err = appendRawBlockRecord(blockValue, &rec.Hash)
-			if err != nil {
+			// Rollback undoes the transactions of a block record last to first and relies
+			// on that being the reverse block order (a spend is undone before the output
+			// it spends is removed). The live follower appends in block order; a rescan
+			// adds transactions to a record that other wallets' transactions are already
+			// in, so it has to insert at the block position.
+			if err := insertIntoBlockRecord(nsBlocks, nsTxRecords, blockKey, blockValue, rec); err != nil {
 				return err
 			}
-			err = putRawBlockRecord(nsBlocks, blockKey, blockValue)
 		}
 	}
 	if err != nil {
@@ -346,6 +349,35 @@ func (s *TxStore) insertMinedTxForImporting(tx mwdb.DBTransaction,
 		}
 	}
 	return s.removeDoubleSpends(tx, rec)
+}
+
+// insertIntoBlockRecord adds rec to an existing block record in front of the first recorded
+// transaction that comes later in the block (by the offset stored in its tx record).
+func insertIntoBlockRecord(nsBlocks, nsTxRecords mwdb.Bucket, blockKey, blockValue []byte, rec *TxRecord) error {
+	blkRec := &blockRecord{}
+	if err := readRawBlockRecord(blockKey, blockValue, blkRec); err != nil {
+		return err
+	}
+	pos := len(blkRec.transactions)
+	for i := range blkRec.transactions {
+		_, v := existsTxRecord(nsTxRecords, &blkRec.transactions[i], &blkRec.BlockMeta)
+		if v == nil {
+			continue
+		}
+		_, txLoc, err := readTxRecordLoc(v)
+		if err != nil {
+			return err
+		}
+		if txLoc.TxStart > rec.TxLoc.TxStart {
+			pos = i
+			break
+		}
+	}
+	hashes := make([]wire.Hash, 0, len(blkRec.transactions)+1)
+	hashes = append(hashes, blkRec.transactions[:pos]...)
+	hashes = append(hashes, rec.Hash)
+	hashes = append(hashes, blkRec.transactions[pos:]...)
+	return updateBlockRecord(nsBlocks, &blkRec.BlockMeta, hashes)
 }
 
 func (s *TxStore) removeDoubleSpends(tx mwdb.DBTransaction, rec *TxRecord) error {
